@@ -88,8 +88,23 @@ def branchOf (h : List (Op × Olla.Spec.C07.Obs)) : String :=
   "c07" ++ (if shortc then ".breaker" else "") ++ (if capped then ".cap" else "") ++ (if fired then ".recover" else "")
         ++ (if proxy then ".proxy" else "") ++ (if skipped then ".notdue" else "") ++ ".fail"
 
+/-- kind "loop": the production wiring left to itself. The endpoint's backend refuses while the stack starts and
+    accepts from then on; the background loop must probe it again within its ticker period (plus slack) and the
+    first probe that succeeds makes it routable. -/
+def handleLoop (case : Nat) (j : Json) : IO Unit := do
+  let impl := jget j "impl"
+  if jstr (jget impl "start_err") != "" then
+    emit case false true "start-error" "" (jstr (jget impl "start_err")); return
+  let recovered := jstr (jget impl "status") == "healthy" && jint (jget impl "probes") ≥ 1
+  let startedDown := jstr (jget impl "status_at_start") != "healthy"
+  emit case (recovered && startedDown) recovered "loop.production-wiring"
+    (if recovered then "" else "endpoint-not-probed-again-by-the-background-loop")
+    (if recovered && startedDown then "" else s!"endpoint status at start '{jstr (jget impl "status_at_start")}', after {jint (jget impl "waited_ms")} ms (bound {jint (jget impl "bound_ms")} ms) '{jstr (jget impl "status")}', {jint (jget impl "probes")} probe(s) reached the backend since it accepts connections")
+
 def handle (vh vb : Variant) (j : Json) : IO Unit := do
   let case := jnat (jget j "case")
+  if jstr (jget j "kind") == "loop" then
+    handleLoop case j; return
   let interval := jint (jget j "interval")
   let ideal := jbool (jget j "ideal")
   let rawOps := (jarr (jget j "ops")).map (fun o => (jint ((jarr o).getD 0 Json.null), jint ((jarr o).getD 1 Json.null)))
